@@ -199,7 +199,7 @@ class KGen:
             if rng.random() < 0.3 or self.many_callbacks:
                 op["td"] = self.cb()
                 op["td"]["pass"] = False
-            if rng.random() < self.malformed:
+            if rng.random() < self.malformed and self.ctxs[c]["state"] == "open":   # (one reason to fail at a time)
                 m = rng.choice(["name", "none", "type", "td"])
                 if m == "name":
                     op["name"] = rng.choice(BAD_NAMES)
@@ -226,7 +226,7 @@ class KGen:
                   "noneIn": False, "annot": rng.random() < 0.3, "single": rng.random() < 0.5, "via": self.via(t, c)}
             for ty in op["types"]:
                 self.ctxs[c]["keys"].append((ty, op["name"]))
-            if rng.random() < self.malformed:
+            if rng.random() < self.malformed and self.ctxs[c]["state"] == "open":   # (one reason to fail at a time)
                 m = rng.choice(["name", "none", "empty"])
                 if m == "name":
                     op["name"] = rng.choice(BAD_NAMES)
@@ -336,7 +336,7 @@ class KGen:
             c = self.pick_ctx(("open",))
             if c is None:
                 return None
-            op = {"op": "addtd", "t": t, "c": c, "cb": self.cb(), "callable": rng.random() > self.malformed,
+            op = {"op": "addtd", "t": t, "c": c, "cb": self.cb(), "callable": rng.random() > self.malformed or self.ctxs[c]["state"] != "open",
                   "via": self.via(t, c)}
             self.ctxs[c].setdefault("atds", [])
             if op["callable"] and op["cb"]["async"] and self.ctxs[c]["state"] == "open":
